@@ -558,7 +558,12 @@ func execBulk(x *X) {
 					}
 					st.mu.Lock()
 					st.resp = append(st.resp, toWire(res))
+					flood := len(st.resp) > 4*(len(st.reqs)+2)
 					st.mu.Unlock()
+					if flood {
+						x.Violate("response-flood", "stream %d produced more than %d responses for %d requests", st.idx, 4*(len(st.reqs)+2), len(st.reqs))
+						break
+					}
 				}
 				st.mu.Lock()
 				st.closed = true
@@ -587,6 +592,11 @@ func execBulk(x *X) {
 		sch.mu.Unlock()
 		sort.Strings(pend)
 		x.Violate("no-progress:"+strings.SplitN(stall, " ", 3)[0]+"-"+strings.SplitN(stall, " ", 3)[1], "bulk streams did not complete: %s after %d scheduler steps; parked tasks: %v", stall, sch.Steps, pend)
+		// Do not release the parked goroutines: whatever keeps the system from finishing (a
+		// decoder that loops, a lost wake-up) would now run unchecked. They stay parked; the
+		// end-of-bubble deadlock report is recovered by the runner.
+		x.R.SimTimeS = time.Since(t0).Seconds()
+		return
 	}
 	// release everything so that the goroutines can finish and the bubble can end
 	sch.Stop()
